@@ -247,7 +247,7 @@ def unsupported_stream(rnd: random.Random, n: int):
         g.locals = {}
         pre = [g.stmt(1) for _ in range(rnd.randint(0, 2))]
         post = [g.stmt(1) for _ in range(rnd.randint(0, 2))]
-        u = rnd.choice(UNSUPPORTED)
+        u = rnd.choice([x for x in UNSUPPORTED if x != "int32_t a = 1; int16_t a = 2;"])     # D28 stays on its own witness
         if rnd.random() < 0.3:
             u = f"if (RsV) {{ {u} }}"
         yield "{ " + " ".join(pre + [u] + post) + " }"
